@@ -134,6 +134,9 @@ func (vc *VC) doCall(st *State, f *Frame, instr ssa.Value, c *ssa.CallCommon, ar
 			} else {
 				vc.used["contract:"+name] = true
 			}
+			if len(st.frames) == 1 {
+				vc.logCall(st, callee, args)
+			}
 			return done(vc.applyContract(st, ct, callee.Signature, args, callee, pos, "func"))
 		}
 		if len(st.frames) <= vc.inlineDepth && !vc.onStack(st, callee) {
@@ -245,6 +248,9 @@ func (vc *VC) dynamicCall(st *State, c *ssa.CallCommon, args []Value, fnv Value,
 	if key := funcFieldOf(c.Value); key != "" {
 		if ct, ok := vc.eng.db.ByField[key]; ok {
 			vc.used["assumed-contract (function-valued field): "+key] = true
+			if len(st.frames) == 1 {
+				vc.logCallNamed(st, key[strings.LastIndex(key, ".")+1:], args)
+			}
 			return vc.applyContract(st, ct, sig, args, nil, pos, "extern")
 		}
 	}
@@ -597,6 +603,10 @@ func (vc *VC) applyContract(st *State, ct *Contract, sig *types.Signature, args 
 		post.vars[names[i]] = SV{v.(*Term), rt}
 	}
 	for _, cl := range append(append([]*Clause{}, ct.Ensures...), ct.Defines...) {
+		if localOnlyClause(cl) {
+			// a clause over the callee's own spawn / call logs says nothing a caller can name
+			continue
+		}
 		t, err := post.EvalBool(cl.E)
 		if err != nil {
 			vc.eng.specError(fmt.Sprintf("%s: ensures [%s]: %v", ct.Target, cl.Label, err))
@@ -1034,7 +1044,7 @@ func (vc *VC) finish(st *State, f *Frame, res []Value, pos token.Pos) {
 	for _, cl := range ct.Ensures {
 		t, err := env.EvalBool(cl.E)
 		if err != nil {
-			vc.eng.specError(fmt.Sprintf("%s: ensures [%s]: %v", ct.Target, cl.Label, err))
+			vc.unprovable("post["+cl.Label+"]", vc.clauseProps(ct, cl), vc.posOf(pos), err)
 			continue
 		}
 		goals = append(goals, pending{cl, t})
@@ -1193,8 +1203,81 @@ func (vc *VC) doSelect(st *State, f *Frame, x *ssa.Select) []*State {
 	return forks
 }
 
-func (vc *VC) chanInvAssume(st *State, f *Frame, chv ssa.Value, ch *Term, v Value)            {}
-func (vc *VC) chanInvCheck(st *State, f *Frame, chv ssa.Value, ch *Term, v Value, p token.Pos) {}
+// chanVarName: the source-level name of the variable a channel value was read from.
+func (vc *VC) chanVarName(f *Frame, v ssa.Value) string {
+	switch x := v.(type) {
+	case *ssa.UnOp:
+		if x.Op == token.MUL {
+			switch a := x.X.(type) {
+			case *ssa.FreeVar:
+				return a.Name()
+			case *ssa.Alloc:
+				return a.Comment
+			}
+		}
+	case *ssa.Parameter:
+		return x.Name()
+	case *ssa.FreeVar:
+		return x.Name()
+	}
+	for name, refs := range vc.eng.debugRefs(f.fn) {
+		for _, d := range refs {
+			if d.X == v && !d.IsAddr {
+				return name
+			}
+		}
+	}
+	return ""
+}
+
+// chanInvAssume: recvinv clauses of the function under contract (top frame only).
+func (vc *VC) chanInvAssume(st *State, f *Frame, chv ssa.Value, ch *Term, v Value) {
+	if vc.contract == nil || len(st.frames) != 1 || len(vc.contract.RecvInvs) == 0 {
+		return
+	}
+	name := vc.chanVarName(f, chv)
+	for _, ri := range vc.contract.RecvInvs {
+		if ri.Pattern != name {
+			continue
+		}
+		env := vc.envFor(st, f)
+		env.old = vc.entry
+		env.frame = f
+		et := chv.Type().Underlying().(*types.Chan).Elem()
+		env.bind("v", SV{V: vc.term(st, v, "recv"), T: et})
+		t, err := env.EvalBool(ri.Clause.E)
+		if err != nil {
+			vc.eng.specError(fmt.Sprintf("%s: recvinv %s: %v", vc.contract.Target, ri.Pattern, err))
+			continue
+		}
+		st.assume(t)
+		vc.note("values received from channel %s of %s satisfy its recvinv clause (an assumption about the senders, checked on their side by sendreq)", name, vc.fn.Name())
+	}
+}
+
+// chanInvCheck: sendreq clauses of the function under contract (top frame only).
+func (vc *VC) chanInvCheck(st *State, f *Frame, chv ssa.Value, ch *Term, v Value, p token.Pos) {
+	if vc.contract == nil || len(st.frames) != 1 || len(vc.contract.SendReqs) == 0 {
+		return
+	}
+	name := vc.chanVarName(f, chv)
+	for _, sr := range vc.contract.SendReqs {
+		if sr.Pattern != name {
+			continue
+		}
+		env := vc.envFor(st, f)
+		env.old = vc.entry
+		env.frame = f
+		et := chv.Type().Underlying().(*types.Chan).Elem()
+		env.bind("sent", SV{V: vc.term(st, v, "sent"), T: et})
+		t, err := env.EvalBool(sr.Clause.E)
+		if err != nil {
+			vc.unprovable("sendreq["+sr.Clause.Label+"]@"+vc.site(), vc.clauseProps(vc.contract, sr.Clause), vc.posOf(p), err)
+			continue
+		}
+		vc.oblige(st, "sendreq["+sr.Clause.Label+"]@"+vc.site(), t, vc.clauseProps(vc.contract, sr.Clause), vc.posOf(p))
+	}
+}
 
 // ---------------------------------------------------------------------------
 // guarded_by
@@ -1256,7 +1339,65 @@ func (vc *VC) guardCheckMap(st *State, f *Frame, m ssa.Value, pos token.Pos) {
 		return
 	}
 	if u, ok := m.(*ssa.UnOp); ok && u.Op == token.MUL {
-		vc.guardCheck(st, f, u.X, pos)
+		if _, isField := u.X.(*ssa.FieldAddr); isField {
+			vc.guardCheck(st, f, u.X, pos)
+			return
+		}
+	}
+	// the map is reached through a local: if it is one that was read out of a guarded field
+	// earlier on this path, the owning mutex must (still) be held
+	mt, ok := m.Type().Underlying().(*types.Map)
+	if !ok || len(st.gmaps) == 0 {
+		return
+	}
+	r := vc.tv(st, f, m)
+	seen := map[string]bool{}
+	for _, g := range st.gmaps {
+		if !types.Identical(g.mt, mt) || seen[g.name+g.ref.S] {
+			continue
+		}
+		seen[g.name+g.ref.S] = true
+		held := vc.load(st, g.mu)
+		vc.oblige(st, fmt.Sprintf("lock@%s(alias)@%s", g.name, vc.site()), Implies(Eq(r, g.ref), vc.term(st, held, "held")), []string{"C10"}, vc.posOf(pos))
+	}
+}
+
+// noteGuardedMap records a map reference loaded from a mutex-guarded field.
+func (vc *VC) noteGuardedMap(st *State, f *Frame, addr ssa.Value, v Value) {
+	if !vc.lockCheck {
+		return
+	}
+	fa, ok := addr.(*ssa.FieldAddr)
+	if !ok {
+		return
+	}
+	pt := fa.X.Type().Underlying().(*types.Pointer).Elem()
+	stt, ok := pt.Underlying().(*types.Struct)
+	if !ok {
+		return
+	}
+	mt, ok := stt.Field(fa.Field).Type().Underlying().(*types.Map)
+	if !ok {
+		return
+	}
+	if _, fresh := rootOf(fa.X).(*ssa.Alloc); fresh {
+		return
+	}
+	fname := stt.Field(fa.Field).Name()
+	mu, guarded := vc.guardedField(pt, fname)
+	if !guarded || mu == "<atomic>" {
+		return
+	}
+	t, ok := v.(*Term)
+	if !ok {
+		return
+	}
+	for i := 0; i < stt.NumFields(); i++ {
+		if stt.Field(i).Name() == mu {
+			p := vc.asPtr(vc.value(st, f, fa.X), pt).withStep(PathStep{Field: i})
+			st.gmaps = append(st.gmaps, guardedMap{ref: t, mu: p, mt: mt, name: types.Unalias(pt).(*types.Named).Obj().Name() + "." + fname})
+			return
+		}
 	}
 }
 
@@ -1334,15 +1475,15 @@ func (vc *VC) checkCallReqs(st *State, f *Frame, c *ssa.CallCommon, fnv Value, a
 				if !c.IsInvoke() {
 					rt = sig.Recv().Type()
 				}
-				env.vars["recv"] = SV{V: vc.term(st, args[0], "recv"), T: rt}
+				env.bind("recv", SV{V: vc.term(st, args[0], "recv"), T: rt})
 			}
 		}
 		for i := 0; i+off < len(args) && i < sig.Params().Len(); i++ {
-			env.vars[fmt.Sprintf("arg%d", i)] = SV{V: vc.term(st, args[i+off], "arg"), T: sig.Params().At(i).Type()}
+			env.bind(fmt.Sprintf("arg%d", i), SV{V: vc.term(st, args[i+off], "arg"), T: sig.Params().At(i).Type()})
 		}
 		t, err := env.EvalBool(cr.Clause.E)
 		if err != nil {
-			vc.eng.specError(fmt.Sprintf("%s: callreq %s: %v", vc.contract.Target, cr.Pattern, err))
+			vc.unprovable("callreq["+cr.Clause.Label+"]@"+vc.site(), vc.clauseProps(vc.contract, cr.Clause), pos, err)
 			continue
 		}
 		vc.oblige(st, "callreq["+cr.Clause.Label+"]@"+vc.site(), t, vc.clauseProps(vc.contract, cr.Clause), pos)
@@ -1377,4 +1518,69 @@ func (vc *VC) externalErrors(st *State, c *ssa.CallCommon, res Value) {
 			mark(res, sig.Results().At(0).Type())
 		}
 	}
+}
+
+// logCall appends to the ghost call log of an in-repo function that is called through its contract:
+// callcount("f") calls of f were made so far by the function under verification, callarg("f", j)[k]
+// is argument j (receiver first) of the k-th of them.
+func (vc *VC) logCall(st *State, callee *ssa.Function, args []Value) {
+	vc.logCallNamed(st, callee.Name(), args)
+}
+
+func (vc *VC) logCallNamed(st *State, name string, args []Value) {
+	cn := "call_" + name + "_n"
+	cnt, ok := st.ghosts[cn]
+	if !ok {
+		cnt = IntLit(0)
+	}
+	for j, a := range args {
+		at := vc.term(st, a, "callarg")
+		an := fmt.Sprintf("call_%s_a%d", name, j)
+		arr, ok := st.ghosts[an]
+		if !ok {
+			arr = vc.eng.st.Zero(vc.eng.st.ArrayOf(sortInt, at.Sort))
+		}
+		st.ghosts[an] = Store(arr, cnt, at)
+	}
+	st.ghosts[cn] = Bin(sortInt, "+", cnt, IntLit(1))
+}
+
+// loggedCallee finds what fn calls under the given name (an in-repo function called directly, or a
+// function-valued struct field) and returns the types of the logged arguments (receiver first).
+func loggedCallee(fn *ssa.Function, name string) ([]types.Type, bool) {
+	for _, b := range fn.Blocks {
+		for _, ins := range b.Instrs {
+			cc, ok := ins.(ssa.CallInstruction)
+			if !ok {
+				continue
+			}
+			if callee := cc.Common().StaticCallee(); callee != nil && callee.Name() == name {
+				var ts []types.Type
+				for _, p := range callee.Params {
+					ts = append(ts, p.Type())
+				}
+				return ts, true
+			}
+			if key := funcFieldOf(cc.Common().Value); key != "" && strings.HasSuffix(key, "."+name) {
+				var ts []types.Type
+				sig := cc.Common().Signature()
+				for i := 0; i < sig.Params().Len(); i++ {
+					ts = append(ts, sig.Params().At(i).Type())
+				}
+				return ts, true
+			}
+		}
+	}
+	return nil, false
+}
+
+// localOnlyClause: postconditions phrased over the ghost logs of the function's own go statements
+// and calls are checked on the body but cannot be used at call sites.
+func localOnlyClause(cl *Clause) bool {
+	for _, w := range []string{"spawncount(", "spawnarg(", "callcount(", "callarg("} {
+		if strings.Contains(cl.Src, w) {
+			return true
+		}
+	}
+	return false
 }
